@@ -194,6 +194,40 @@ def _explore(out, tier, seed, facts, replay):
             if not isinstance(want, tuple) and not all(common.close_lists(a, b, 1e-5) for a, b in zip(g, want)):
                 out.violation("dim-agg-through-data", "-T %r -Tagg %s: scores differ from the trailing-window transform of obs and fcst" % (h, aname),
                               {"dataset": ds, "h": h, "agg": aname})
+    # ensemble members are pre-aggregated too: probabilities and quantiles derived from the ensemble under -T
+    import verif.field
+    for _ in range(10 if tier == "quick" else 100):
+        nl, nm = rng.randint(2, 5), rng.randint(2, 4)
+        leads = sorted(rng.sample([0, 1, 2, 3, 6, 9, 12, 24], nl))
+        ens = [[rng.randint(0, 12) / 2.0 for _ in range(nm)] for _ in range(nl)]
+        spec = {"times": [0], "leads": [float(x) for x in leads], "locs": [[1, 0.0, 0.0, 0.0]],
+                "fields": {"obs": [[[1.0] for _ in range(nl)]], "fcst": [[[1.0] for _ in range(nl)]]}}
+        inp = datagen.mem_input(spec, "ens")
+        inp.ensemble = np.array([[[e] for e in ens]], float)
+        h = rng.choice([2.0, 4.0, 7.0, 30.0])
+        aname = rng.choice(["sum", "mean", "max"])
+        agg_ens = []
+        for b in range(nl):
+            idx = [i for i in range(nl) if leads[b] - h < leads[i] <= leads[b]]
+            agg_ens.append([oagg(aname, [ens[i][m] for i in idx]) for m in range(nm)])
+        t = rng.choice([1.0, 3.0, 6.0])
+        q = rng.choice([0.25, 0.5, 0.9])
+        for kind in ("threshold", "quantile"):
+            d = verif.data.Data([inp], dim_agg_length=h, dim_agg_axis=verif.axis.Leadtime(), dim_agg_method=aggs[aname])
+            nf += 1
+            try:
+                if kind == "threshold":
+                    got = [float(x) for x in d.get_scores(verif.field.Threshold(t), 0, verif.axis.All()).flatten()]
+                    want = [sum(1 for v in row if v <= t) / float(nm) for row in agg_ens]
+                else:
+                    got = [float(x) for x in d.get_scores(verif.field.Quantile(q), 0, verif.axis.All()).flatten()]
+                    want = [float(np.quantile(np.array(row), q, method="normal_unbiased")) for row in agg_ens]
+            except Exception as e:
+                out.violation("ensemble-preaggregation-exception", "%s from the ensemble under -T raised %r" % (kind, e), {"leads": leads, "ensemble": ens, "h": h})
+                continue
+            if not common.close_lists(got, want, 1e-5):
+                out.violation("ensemble-not-preaggregated:%s" % kind, "-T %r -Tagg %s: %s derived from the ensemble is %r; from the pre-aggregated members it is %r"
+                              % (h, aname, kind, got, want), {"leads": leads, "ensemble": ens, "h": h, "agg": aname, "threshold": t, "quantile": q})
     # quantile aggregators at arbitrary levels in [0, 1]; levels outside are rejected
     from p_c05 import percentile
     for q in [0.0, 0.005, 0.025, 0.1, 0.29, 1.0 / 3, 0.5, 0.57, 0.58, 0.975, 0.999, 1.0]:
